@@ -25,7 +25,7 @@ def run(res, pool, tier, seed):
     else:
         jobs = [dict(module="MC_Move.tla", tag="mc", invariants=MC_INVS, properties=["QueryPure"], constants=consts(seed, 4, 1),
                      cfg_extra=["VIEW View"], timeout=7200),
-                dict(module="MC_Move.tla", tag="gen", invariants=["Emit"], constants=consts(seed, 4, 120), timeout=7200, batch=25),
+                dict(module="MC_Move.tla", tag="gen", invariants=["Emit"], constants=consts(seed, 4, 300), timeout=7200, batch=25),
                 dict(module="MC_Move.tla", tag="gen-sim", invariants=["Emit"], constants=consts(seed, 6, 1), timeout=3600, batch=25,
                      simulate="num=300", depth=7, tlc_seed=seed + 11, workers=8, spec="SpecSim")]
     engine.run_jobs(res, jobs, pool)
